@@ -126,7 +126,7 @@ Proof.
             add_remote cfg rc (fun ok => if ok then
                with_state s_ctl (fun ctl =>
                  if Bool.eqb (s_ctl s) ctl then handle_role_conflict cfg m l rc tb ;; nop
-                 else (if ctl then handle_request_controlling cfg m l rc else handle_request_controlled cfg m l rc) ;; seen (c_h rc))
+                 else dispatch_request cfg m l rc ;; seen (c_h rc))
                else nop) s0).
   { unfold handle_inbound. rewrite Hc, Hm.
     change (canHandleInbound 1 0) with true. cbn [negb]. unfold with_state at 1. rewrite Hr.
@@ -141,7 +141,7 @@ Proof.
       rewrite (add_remote_ext cfg rc K (fun ok => if ok then
                with_state s_ctl (fun ctl =>
                  if Bool.eqb (s_ctl s) ctl then handle_role_conflict cfg m l rc tb ;; nop
-                 else (if ctl then handle_request_controlling cfg m l rc else handle_request_controlled cfg m l rc) ;; seen (c_h rc))
+                 else dispatch_request cfg m l rc ;; seen (c_h rc))
                else nop) s0)
     end.
     - destruct (add_remote cfg rc _ s0) as [sx ox]. reflexivity.
@@ -164,7 +164,7 @@ Proof.
     assert (Hfinish : forall s1, core_view s1 = core_view s ->
               with_state s_ctl (fun ctl =>
                  if Bool.eqb (s_ctl s) ctl then handle_role_conflict cfg m l rc tb ;; nop
-                 else (if ctl then handle_request_controlling cfg m l rc else handle_request_controlled cfg m l rc) ;; seen (c_h rc)) s1
+                 else dispatch_request cfg m l rc ;; seen (c_h rc)) s1
               = if keeps_role cfg s1 tb then (s1, [OSend (c_h l) (c_addr rc) (role_conflict_error s1 m)])
                 else (switched_role s1, [])).
     { intros s1 Hv. unfold with_state.
